@@ -26,7 +26,7 @@ EXPLANATION = (
 )
 ASSUMPTIONS = ["RDKit's SMARTS matching is replaced by an arbitrary relation (its numbering-independence is a fact about RDKit)", "the bundled rule set's completeness for 'typable chemistry' is not decidable here"]
 OUTSIDE = ["RDKit SMARTS semantics", "completeness of the bundled rule set", "more than 3 calls / 4 rules / 3 atoms"]
-REQUIRED_LABELS = ["assigner built from the requested files", "longest matching rule wins", "unmatched atom raises with the partial assignment", "partially generated molecule refused"]
+REQUIRED_LABELS = ["typing real molecules: element masses, numbering- and history-free", "assigner built from the requested files", "longest matching rule wins", "unmatched atom raises with the partial assignment", "partially generated molecule refused"]
 
 RULES = ["[$([CH3D4])]", "[$([CH2D4])]", "[$([#1][CH4])]", "[$([#1][CD4;!$([C][CD2,O,N][#6])])]"]  # lengths 12, 12, 14, 37
 TYPES = ["opls_135", "opls_136", "opls_140", "opls_140B"]
@@ -39,7 +39,8 @@ def bounds(tier):
 def cases(tier):
     n = 2 if tier == "quick" else 3
     out = [{"name": f"history/{n}calls", "kind": "history", "n": n}, {"name": "selection", "kind": "selection"},
-           {"name": "refusal", "kind": "refusal"}, {"name": "element-masses", "kind": "masses"}]
+           {"name": "refusal", "kind": "refusal"}, {"name": "element-masses", "kind": "masses"},
+           {"name": "real-typing-history", "kind": "realhist"}]
     return out
 
 
@@ -164,8 +165,8 @@ def run_case(case, g, tier, res):
         explore_case(res, h, tier, on_path=on_path)
     elif kind == "refusal":
         def h(c):
-            k = c.fresh_int("open", 0, 2).__index__()
-            text = ["CC", "CC[$]", "[$]CC[$]"][k]
+            k = c.fresh_int("open", 0, 4).__index__()
+            text = ["CC", "CC[$]", "[$]CC[$]", "CC[$|0|]", "[<|0|]CC[>|0.0|]"][k]
             tok = g.SmilesToken(text, 0, 0)
             mg = sys.modules["gbigsmiles.mol_gen"].MolGen(tok)
 
@@ -187,6 +188,20 @@ def run_case(case, g, tier, res):
             return refused
 
         explore_case(res, h, tier, on_path=on_path)
+    elif kind == "realhist":
+        def h(c):
+            i = c.fresh_int("pair", 0, len(REAL_PAIRS) - 1).__index__()
+            first = c.fresh_int("first", 0, 1).__index__()
+            problems = real_typing_history(ff, REAL_PAIRS[i], first)
+
+            def build(mv, c):
+                return ("C20:real-typing-history", f"typing {REAL_PAIRS[i]} (starting with #{first}) on one assigner: {problems[:3]}",
+                        {"kind": "realhist", "pair": list(REAL_PAIRS[i]), "first": first})
+
+            c.prove(len(problems) == 0, "typing real molecules: element masses, numbering- and history-free", build)
+            return len(problems)
+
+        explore_case(res, h, tier, on_path=on_path)
     else:
         def h(c):
             bad = element_mass_mismatches(ff)
@@ -198,6 +213,42 @@ def run_case(case, g, tier, res):
             return len(bad)
 
         explore_case(res, h, tier, on_path=on_path)
+
+
+REAL_PAIRS = [("CCO", "OCC"), ("CC(=O)OC", "COC(C)=O"), ("CCCCN", "NCCCC"), ("c1ccccc1C", "Cc1ccccc1")]
+
+
+def real_typing_history(ff, pair, first):
+    """two spellings of one molecule typed one after the other on one assigner (real RDKit, bundled files):
+    every atom gets the mass of its element, and the assignment is the same up to the atom mapping"""
+    from rdkit import Chem
+
+    ff._global_nonbonded_itp_file = ff._global_smarts_rule_file = ff._global_assignment_class = None
+    sa = ff.get_assignment_class(None, None)
+    pt = Chem.GetPeriodicTable()
+    order = [pair[first], pair[1 - first]]
+    results = []
+    problems = []
+    for smi in order:
+        mol = Chem.AddHs(Chem.MolFromSmiles(smi))
+        try:
+            res = sa.get_type_assignments(mol)
+        except ff.FfAssignmentError as e:
+            problems.append(f"{smi}: not all atoms typed")
+            continue
+        for a in mol.GetAtoms():
+            p_ = res.get(a.GetIdx())
+            if p_ is None or abs(p_.mass - pt.GetAtomicWeight(a.GetAtomicNum())) > 0.05:
+                problems.append(f"{smi}: atom {a.GetIdx()} {a.GetSymbol()} typed {None if p_ is None else (p_.bond_type_name, p_.mass)}")
+        results.append((mol, res))
+    if len(results) == 2:
+        (m1, r1), (m2, r2) = results
+        match = m2.GetSubstructMatch(m1)
+        if len(match) == m1.GetNumAtoms():
+            for i, j in enumerate(match):
+                if r1[i] != r2[j] and m1.GetAtomWithIdx(i).GetAtomicNum() != 1:
+                    problems.append(f"heavy atom {i}/{j} typed differently in the two spellings")
+    return problems
 
 
 def element_mass_mismatches(ff):
@@ -339,6 +390,9 @@ def replay(rp, gb):
             refused = True
         want = len(tok.bond_descriptors) > 0
         return refused != want, f"refused={refused} open={len(tok.bond_descriptors)}"
+    if rp["kind"] == "realhist":
+        problems = real_typing_history(ff, tuple(rp["pair"]), rp["first"])
+        return bool(problems), str(problems[:4])
     if rp["kind"] == "masses":
         bad = element_mass_mismatches(ff)
         return bool(bad), str(bad[:5])
